@@ -115,4 +115,10 @@ CHECKS = {
   "text": "Generated structures in drawn grid orientations (default, --protonate-all, and own hydrogens fed back with --keep-protons), every library ligand and synthetic centres of 10 elements with 0-3 neighbours (planar, pyramidal, linear): each constructed hydrogen has exactly one heavy parent that lists it back, sits at the tabulated X-H length within 0.0015 A, and keeps >= 0.5 A from its siblings; residues whose reference-rule bond graph equals the hand-written template and whose chain neighbours are present carry exactly His 2 / Arg 5 / Asn, Gln 2 / Trp 1 / backbone 1 hydrogens and raise no 'missing atoms or failed protonation' warning; hydrogen sets of two orientations correspond one-to-one within a grid step.",
   "note": "'Regular' is the harness's predicate (vlib/templates.py); residues failing it are outside the completeness claim. Hetero atoms are outside the orientation clause (rotamers frame-dependent by design). Open findings F11 and F8 excluded from the orientation clause by signature.",
  },
+ "C03": {
+  "level": "exploration",
+  "technique": "stateful model-based testing (Hypothesis RuleBasedStateMachine) over call histories in one process, each run compared bit-exactly with the same (content, options) executed alone in a fresh interpreter; histories run in 16 interpreters with different hash seeds",
+  "text": "A per-run catalogue of inputs (generated peptides, inputs with elements missing from the valence table, ligands with covalently coupled groups, multi-conformation files, a buried cluster of coupled acids, the corpus file 1HPX) and 9 option sets (default, -d, -i, -c, -k, --protonate-all, -g/-w, -p with different scoring flags and coupling thresholds, -q); rules: run from a stream, run from a path in drawn directories, CLI main() with several files in one invocation, allocation churn, garbage-collector toggling. After every run the canonical record (every float bit for bit, .pka text minus the date) must equal the fresh-interpreter reference; the references themselves are computed under three hash seeds and as path and stream (297 fresh interpreters in the quick tier) and must agree.",
+  "note": "Object addresses and set orders are perturbed, not enumerated: a miss is possible, a false alarm is not. The order of covalently coupled partner lists is compared as a set (not a reported number).",
+ },
 }
